@@ -31,6 +31,14 @@ use crate::{
 pub struct Rec {
     pub n: u16,
     pub len: u32,
+    /// afterwards the same thread appends a record of its own to a second
+    /// file appender (same encoder kind, another path)
+    #[serde(default)]
+    pub sib: bool,
+    /// before that, the same thread offers the record to an appender whose
+    /// "file" is /dev/full: every write(2) fails with ENOSPC
+    #[serde(default)]
+    pub full: bool,
 }
 
 #[derive(Clone, Debug, Serialize, Deserialize, PartialEq)]
@@ -117,6 +125,25 @@ pub fn generate_encfail(rng: &mut Rng, tier: Tier) -> Scn {
     s
 }
 
+/// Stock encoders only (pattern, JSON), an appender on a full disk (/dev/full)
+/// and a second healthy appender on another path, all used by the same threads.
+pub fn generate_stock(rng: &mut Rng, tier: Tier) -> Scn {
+    let mut s = generate(rng, tier);
+    s.encoder = if rng.chance(2, 3) { EncKind::Json } else { EncKind::Pattern };
+    let with_sib = rng.chance(3, 4);
+    let with_full = rng.chance(2, 3);
+    for ph in s.phases.iter_mut() {
+        ph.handover = false;
+        for t in ph.threads.iter_mut() {
+            for r in t.iter_mut() {
+                r.sib = with_sib && rng.chance(1, 2);
+                r.full = with_full && rng.chance(1, 2);
+            }
+        }
+    }
+    s
+}
+
 pub fn generate(rng: &mut Rng, tier: Tier) -> Scn {
     let big = tier == Tier::Thorough && rng.chance(1, 4);
     let nphases = rng.weighted(&[6, 3, 1]) + 1;
@@ -132,7 +159,7 @@ pub fn generate(rng: &mut Rng, tier: Tier) -> Scn {
             let mut v = vec![];
             for _ in 0..nrec {
                 let n = next_n.entry(tid).or_insert(0);
-                v.push(Rec { n: *n, len: gen_len(rng) });
+                v.push(Rec { n: *n, len: gen_len(rng), sib: false, full: false });
                 *n += 1;
             }
             threads.push(v);
@@ -182,6 +209,7 @@ fn check_file(
     just_acked: Option<RecId>,
     quiescent: bool,
     append_mode: bool,
+    json: bool,
 ) {
     // I6
     if !data.starts_with(&m.base) {
@@ -192,7 +220,22 @@ fn check_file(
     // strict parse, except that fragments of records whose append failed (an
     // injected encoder error) may remain anywhere: unacknowledged data may be
     // present or absent, never anything else
-    let items = frame::scan(data, m.base.len());
+    let decoded;
+    let (data, from): (&[u8], usize) = if json {
+        match common::decode_json(&data[m.base.len()..], !m.failed.is_empty()) {
+            Ok(d) => {
+                decoded = d;
+                (&decoded, 0)
+            }
+            Err((off, why)) => {
+                sink.fail(P, "C04-I2", "garbage", format!("file is not a concatenation of whole records at offset {}: {}", m.base.len() + off, why));
+                return;
+            }
+        }
+    } else {
+        (data, m.base.len())
+    };
+    let items = frame::scan(data, from);
     let n_items = items.len();
     let mut parsed = frame::Parsed { recs: vec![], torn: None, garbage: None };
     for (i, it) in items.into_iter().enumerate() {
@@ -317,6 +360,10 @@ pub fn execute(scn: &Scn, opts: &ExecOpts) -> Outcome {
     let mut base: Vec<u8> = scn.pre.clone().unwrap_or_default();
     let mut any_switch_inside = false;
     let mut previous: Option<Arc<FileAppender>> = None;
+    let json = scn.encoder == EncKind::Json;
+    let with_sib = scn.phases.iter().any(|p| p.threads.iter().flatten().any(|r| r.sib));
+    let sib_path = scratch.path("sibling/g.log");
+    let with_full = scn.phases.iter().any(|p| p.threads.iter().flatten().any(|r| r.full));
 
     'phases: for (pi, ph) in scn.phases.iter().enumerate() {
         let handover = ph.handover && ph.append && previous.is_some() && scn.enc_fail.is_empty();
@@ -367,6 +414,30 @@ pub fn execute(scn: &Scn, opts: &ExecOpts) -> Outcome {
         k.note("phase", &format!("{} append={}", pi, ph.append));
         let model = Arc::new(Mutex::new(Model { base: base.clone(), inv: HashMap::new(), failed: HashSet::new(), switched_inside: false }));
         let in_cs = Arc::new(Mutex::new(0u32)); // threads between invoke and return
+        // the second appender: never fails, so its file tolerates no fragment at all
+        let sibling = if with_sib {
+            match FileAppender::builder().append(true).encoder(common::make_encoder(&scn.encoder)).build(&sib_path) {
+                Ok(a) => Some(Arc::new(a)),
+                Err(e) => {
+                    sink.fail(P, "C04-E0", "build-failed", format!("building the second appender failed although nothing was injected: {}", e));
+                    break 'phases;
+                }
+            }
+        } else {
+            None
+        };
+        let full_disk = if with_full {
+            match FileAppender::builder().append(true).encoder(common::make_encoder(&scn.encoder)).build("/dev/full") {
+                Ok(a) => Some(Arc::new(a)),
+                Err(e) => {
+                    out.harness_error = Some(format!("/dev/full cannot be opened: {}", e));
+                    break 'phases;
+                }
+            }
+        } else {
+            None
+        };
+        let sib_model = Arc::new(Mutex::new(Model { base: fs::read(&sib_path).unwrap_or_default(), inv: HashMap::new(), failed: HashSet::new(), switched_inside: false }));
         let mut bodies: Vec<Box<dyn FnOnce() + Send>> = vec![];
         let tid_base: u16 = scn.phases[..pi].iter().map(|p| p.threads.len() as u16).sum();
         for (ti, recs) in ph.threads.iter().enumerate() {
@@ -379,6 +450,10 @@ pub fn execute(scn: &Scn, opts: &ExecOpts) -> Outcome {
             let append_mode = ph.append;
             let in_cs = in_cs.clone();
             let enc_fail = scn.enc_fail.clone();
+            let sibling = sibling.clone();
+            let full_disk = full_disk.clone();
+            let sib_model = sib_model.clone();
+            let sib_path = sib_path.clone();
             let old = if handover { previous.clone() } else { None };
             bodies.push(Box::new(move || {
                 for r in recs {
@@ -418,7 +493,7 @@ pub fn execute(scn: &Scn, opts: &ExecOpts) -> Outcome {
                             }
                             m.inv.get_mut(&id).unwrap().1 = Some(s1);
                             match fs::read(&path) {
-                                Ok(data) => check_file(&sink, &m, &data, Some(id), false, append_mode),
+                                Ok(data) => check_file(&sink, &m, &data, Some(id), false, append_mode, json),
                                 Err(e) => sink.fail(P, "C04-I1", "unreadable", format!("file unreadable after acknowledged append: {}", e)),
                             }
                         }
@@ -431,7 +506,7 @@ pub fn execute(scn: &Scn, opts: &ExecOpts) -> Outcome {
                                 m.failed.insert(id);
                                 sink.probe("encoder_failures", 1);
                                 if let Ok(data) = fs::read(&path) {
-                                    check_file(&sink, &m, &data, None, false, append_mode);
+                                    check_file(&sink, &m, &data, None, false, append_mode, json);
                                 }
                             } else {
                                 sink.fail(P, "C04-E0", "append-failed", format!("append of {} failed although nothing was injected: {}", id, e));
@@ -439,6 +514,40 @@ pub fn execute(scn: &Scn, opts: &ExecOpts) -> Outcome {
                         }
                     }
                     kernel::point("op.done");
+                    if let (true, Some(fd)) = (r.full, full_disk.as_ref()) {
+                        // fails in the encoder (records beyond the 1 KiB buffer, or a buffer
+                        // filled by earlier failures) or at the flush; never acknowledged
+                        let id3 = RecId { tid: tid + 2000, n: r.n };
+                        let text3 = frame::encode(id3, r.len as usize);
+                        kernel::note("invoke", &format!("{} (appender on a full disk)", id3));
+                        let res = fd.append(&log::Record::builder().level(log::Level::Info).target("sim").args(format_args!("{}", text3)).build());
+                        kernel::note("return", &format!("{} {}", id3, if res.is_ok() { "ok" } else { "err" }));
+                        sink.probe(if res.is_ok() { "full_disk_appends_acknowledged" } else { "full_disk_appends_failed" }, 1);
+                        kernel::point("op.done");
+                    }
+                    if let (true, Some(sib)) = (r.sib, sibling.as_ref()) {
+                        let id2 = RecId { tid: tid + 1000, n: r.n };
+                        let text2 = frame::encode(id2, (r.len % 700) as usize);
+                        let s0 = kernel::stamp();
+                        kernel::note("invoke", &format!("{} (second appender)", id2));
+                        sib_model.lock().unwrap().inv.insert(id2, (s0, None));
+                        let res = sib.append(&log::Record::builder().level(log::Level::Info).target("sim").args(format_args!("{}", text2)).build());
+                        let s1 = kernel::stamp();
+                        sink.probe("appends_to_second_appender", 1);
+                        match res {
+                            Ok(()) => {
+                                kernel::note("return", &format!("{} ok", id2));
+                                let mut m = sib_model.lock().unwrap();
+                                m.inv.get_mut(&id2).unwrap().1 = Some(s1);
+                                match fs::read(&sib_path) {
+                                    Ok(data) => check_file(&sink, &m, &data, Some(id2), false, true, json),
+                                    Err(e) => sink.fail(P, "C04-I1", "unreadable", format!("second file unreadable after acknowledged append: {}", e)),
+                                }
+                            }
+                            Err(e) => sink.fail(P, "C04-E0", "append-failed", format!("append of {} to the second appender failed although nothing was injected: {}", id2, e)),
+                        }
+                        kernel::point("op.done");
+                    }
                 }
             }));
         }
@@ -453,7 +562,7 @@ pub fn execute(scn: &Scn, opts: &ExecOpts) -> Outcome {
                     kernel::point("observe");
                     if let Ok(data) = fs::read(&path) {
                         let m = model.lock().unwrap();
-                        check_file(&sink, &m, &data, None, false, append_mode);
+                        check_file(&sink, &m, &data, None, false, append_mode, json);
                         sink.probe("independent_observations", 1);
                     }
                 }
@@ -472,11 +581,21 @@ pub fn execute(scn: &Scn, opts: &ExecOpts) -> Outcome {
             break 'phases;
         }
         // quiescent check, then clean restart
+        if let Some(sib) = sibling {
+            let m = sib_model.lock().unwrap();
+            if let Ok(data) = fs::read(&sib_path) {
+                check_file(&sink, &m, &data, None, true, true, json);
+                drop(sib);
+                if fs::read(&sib_path).map(|d| d != data).unwrap_or(true) {
+                    sink.fail(P, "C04-I3", "drop-changed-file", "closing the second appender changed its file".to_string());
+                }
+            }
+        }
         let m = model.lock().unwrap();
         any_switch_inside |= m.switched_inside;
         match fs::read(&path) {
             Ok(data) => {
-                check_file(&sink, &m, &data, None, true, ph.append);
+                check_file(&sink, &m, &data, None, true, ph.append, json);
                 previous = None; // the handed-over appender is closed now
                 let keep = scn.phases.get(pi + 1).map(|n| n.handover && n.append && ph.append).unwrap_or(false);
                 if keep {
@@ -488,7 +607,7 @@ pub fn execute(scn: &Scn, opts: &ExecOpts) -> Outcome {
                     Ok(d2) if d2 == data => base = data,
                     Ok(d2) if !m.failed.is_empty() => {
                         // the buffered fragment of a record whose encoder failed may be written out on close
-                        check_file(&sink, &m, &d2, None, true, ph.append);
+                        check_file(&sink, &m, &d2, None, true, ph.append, json);
                         if !d2.starts_with(&data) {
                             sink.fail(P, "C04-I3", "drop-changed-file", format!("closing the appender rewrote the file ({} -> {} bytes)", data.len(), d2.len()));
                         }
@@ -529,7 +648,7 @@ pub fn execute(scn: &Scn, opts: &ExecOpts) -> Outcome {
 pub fn size(s: &Scn) -> usize {
     s.phases.iter().map(|p| 1 + p.threads.iter().map(|t| 1 + t.len()).sum::<usize>()).sum::<usize>()
         + s.pre.as_ref().map(|p| 1 + p.len() / 64).unwrap_or(0)
-        + s.phases.iter().flat_map(|p| p.threads.iter().flatten()).map(|r| (r.len as usize) / 256).sum::<usize>()
+        + s.phases.iter().flat_map(|p| p.threads.iter().flatten()).map(|r| (r.len as usize) / 256 + r.sib as usize + r.full as usize).sum::<usize>()
 }
 
 pub fn shrink(s: &Scn) -> Vec<Scn> {
@@ -579,6 +698,22 @@ pub fn shrink(s: &Scn) -> Vec<Scn> {
         c.enc_fail.remove(i);
         out.push(c);
     }
+    for (pi, p) in s.phases.iter().enumerate() {
+        for (ti, t) in p.threads.iter().enumerate() {
+            for (ri, r) in t.iter().enumerate() {
+                if r.sib {
+                    let mut c = s.clone();
+                    c.phases[pi].threads[ti][ri].sib = false;
+                    out.push(c);
+                }
+                if r.full {
+                    let mut c = s.clone();
+                    c.phases[pi].threads[ti][ri].full = false;
+                    out.push(c);
+                }
+            }
+        }
+    }
     // simplify
     if s.pre.as_ref().map(|p| !p.is_empty()).unwrap_or(false) {
         let mut c = s.clone();
@@ -593,7 +728,7 @@ pub fn shrink(s: &Scn) -> Vec<Scn> {
         c.nested_dirs = false;
         out.push(c);
     }
-    if s.encoder != EncKind::Pattern && s.enc_fail.is_empty() {
+    if s.encoder != EncKind::Pattern && s.encoder != EncKind::Json && s.enc_fail.is_empty() {
         let mut c = s.clone();
         c.encoder = EncKind::Pattern;
         out.push(c);
